@@ -14,8 +14,12 @@ CLAIMS = {
  "C04": ("proof", "Coq theorem C04_rectangular: every generated tuple has exactly as many values as the column list has columns and there is one tuple per row. PARTIAL: row-faithfulness (cell identity), column order and the rejection list are not proved yet; checked by the differential run (full SQL and argument identity, value-dependent rejection classes) and a rectangularity oracle.", "§4 C04", "reflect is specified in coq/Model/Reflect.v (environment)"),
  "C05": ("proof", "Coq theorems C05_alias_identifies / C05_alias_unique: markerIndex(markerName n) = n for every n (strconv round trip proved), hence aliases of distinct outputs differ. PARTIAL: the column-list theorem per output form is not proved yet; checked by the differential run (generated SQL, Query-vs-Exec) and alias-uniqueness / no-wildcard / query-iff-outputs oracles.", "§4 C05", ""),
  "C07": ("proof", "Coq theorem C07_samples_unique: accepted samples have pairwise distinct type names. PARTIAL: the full iff against an independent well_typed predicate is not proved yet; acceptance/rejection with error class of Prepare is checked by the differential run over statements x sample multisets (missing, extra, duplicated, same-named, pointer, anonymous, nil).", "§4 C07", "reflect is specified in coq/Model/Reflect.v (environment)"),
+ "C09": ("proof", "Coq theorems over ALL histories of the cache model (any number of threads, Statements, DBs; atomic steps at driver-call granularity in any interleaving; reference drops and GC steps anywhere): C09_coherent (every execution goes through a driver statement prepared for exactly this call's Statement, DB and generated SQL), C09_prepare_coherent, C09_reuse, by a 12-clause invariant proved preserved by every step (Proofs/CacheProofs.v). Tied to the code by sequential histories run on the real code with real GC (driver statement identity, contexts, closed sets, cache counts compared per op) and by concurrent stress runs with oracles on the driver log. PARTIAL: 'at most one driver-level prepare per pooled connection' is database/sql's (the scripts use one connection per DB).", "§4 C09", "database/sql pool, Go GC reachability specified in coq/Model/Cache.v"),
+ "C10": ("proof", "Coq theorems C10_no_closed_exec and C10_held_statement_open over all histories (GC steps, drops, evictions by concurrent calls at any position; Statement/DB dropped while a Query or Iterator is in use). PARTIAL: the GC is specified by a reachability rule (a finalizer runs only when no handle, closure, frame or Iterator references the object); Go's real liveness analysis and finalizer timing cannot be exhibited by the model. Differential run: sequential histories with real runtime.GC and finalizer drain; stress runs with oracles (no 'statement is closed' error, no execution on a closed driver statement).", "§4 C10", "Go GC / finalizers specified by a reachability rule"),
+ "C11": ("proof", "Coq theorems over all histories: C11_index_consistent (both index maps describe the same pairs), C11_no_panic (no finalizer hits a missing entry), C11_close_at_most_once, C11_quiescent_released (at quiescence a dropped Statement/DB has no entry and every driver statement is cached-and-referenced or closed exactly once). Differential run: closed sets and hook cache counts per GC op, teardown oracle (everything dropped => cache back to baseline, every driver statement closed exactly once).", "§4 C11", "Go GC / finalizers specified by a reachability rule; hook VerifCacheCounts"),
  "C13": ("proof", "Coq theorems C13_get_releases, C13_getall_releases, C13_close_releases: for every result script (rows, fetch failure at any position, failing driver close, run error, cancelled context), query error and argument list, when Get/Run/GetAll return, and after a Close following any call sequence of any length, the result set has been closed at the driver exactly once. PARTIAL: 'connection returned to the pool' is database/sql's (specified in the Rows model, validated by the differential run on the real database/sql with a recording driver).", "§4 C13", "database/sql Rows specified in coq/Model/Iter.v (environment)"),
  "C14": ("proof", "Coq theorems over all call sequences of any length: C14_close_idempotent, C14_next_false_sticky, C14_get_guards, C14_order, C14_close_surfaces with C14_fetch_failure_recorded / C14_cancel_recorded (an early end is reported by Close, never presented as a normal end). Differential run: op sequences (all sequences up to length 4 over 5 ops x 8 scripts, plus random length <= 10 with cancellation) against the real database/sql.", "§4 C14", "database/sql Rows specified in coq/Model/Iter.v; context cancellation modelled as an atomic step"),
+ "C20": ("proof", "Coq theorems over all histories: C20_same_ctx_exec / C20_same_ctx_prepare (the driver sees the caller's context at the DB-level prepare and at execution, cached or not, DB or TX) and C20_cancelled_runs_nothing (once a context is done no later step sends anything to the driver under it). PARTIAL: 'done on entry => no driver call' is database/sql's, written into the model and validated by the differential run (context marker, deadline, Err recorded by the fake driver at every call; nil context; cancel before Query and between Query and run).", "§4 C20", "database/sql context handling specified in coq/Model/Cache.v"),
  "C15": ("proof", "Coq theorems C15_all_or_nothing (any error => slices untouched, all scripts), C15_getall_appends (old ++ rows in order, ErrNoRows iff empty), C15_get_first_or_norows, C15_exec_outcome. PARTIAL: destination values are abstract row identities here; the value-level mapping is C06's.", "§4 C15", "database/sql Rows specified in coq/Model/Iter.v"),
 }
 
